@@ -570,7 +570,7 @@ class Resolver:
       ('discr', t) ('phi', (alts...)) ('ref', t)
     refs/derefs/copies/moves are transparent."""
 
-    def __init__(self, fn, max_depth=24):
+    def __init__(self, fn, max_depth=64):
         self.fn = fn
         self.max_depth = max_depth
 
@@ -587,7 +587,11 @@ class Resolver:
         if "fn" in op:
             return ("const", "fn", ("fn", op["fn"]))
         if "enum_variant" in op:
+            if "payload_str" in op:
+                return ("const", ty, ("enum", op["enum_variant"], op["payload_str"]))
             return ("const", ty, ("enum", op["enum_variant"]))
+        if "payload_str" in op and "str" not in op:
+            return ("const", ty, op["payload_str"])
         if "bits" in op:
             return ("const", ty, int(op["bits"]))
         if "str" in op:
@@ -684,7 +688,7 @@ class Resolver:
     def _call(self, t, bi, depth, seen):
         c = callee_of(t)
         args = tuple(self.operand(a, depth, seen) for a in t["args"])
-        return ("call", c, args, bi)
+        return ("call", c, args, bi, tuple(t["callee"].get("args", ())))
 
     def rvalue(self, rv, depth=0, seen=frozenset()):
         k = rv["k"]
@@ -756,7 +760,7 @@ def strip_deep(t):
     if t[0] == "index":
         return ("index", strip_deep(t[1]), strip_deep(t[2]))
     if t[0] == "call":
-        return ("call", t[1], tuple(strip_deep(a) for a in t[2]), t[3])
+        return ("call", t[1], tuple(strip_deep(a) for a in t[2]), t[3]) + tuple(t[4:])
     if t[0] == "agg":
         return ("agg", t[1], tuple(strip_deep(a) for a in t[2]))
     if t[0] == "phi":
@@ -775,7 +779,7 @@ def tree_str(t, depth=0):
         if isinstance(v, tuple) and v and v[0] == "fn":
             return "fn:" + short(v[1])
         if isinstance(v, tuple) and v and v[0] == "enum":
-            return "%s::%s" % (t[1].lstrip("&").rsplit("::", 1)[-1], v[1])
+            return "%s::%s%s" % (t[1].lstrip("&").rsplit("::", 1)[-1], v[1], ("('%s')" % v[2]) if len(v) > 2 else "")
         if isinstance(v, tuple):
             return "bytes[%d]" % len(v)
         return repr(v) if isinstance(v, str) else "%s%s" % (v, ("_" + t[1]) if t[1] else "")
